@@ -60,14 +60,15 @@ Theorem unresolved_id_points_at_itself ops fuel n s :
   run_prim (PFindLocal (a_text n)) s = (RVal None, s) ->
   assoc (s_globals s) (a_text n) = None -> assoc (s_funcs s) (a_text n) = None ->
   existsb (String.eqb (a_text n)) builtin_names = false ->
+  existsb (String.eqb (a_text n)) unmodelled_names = false ->
   eval (mkcfg false) ops (S fuel) n s =
     (RFail (FThrow (EEval ("Can not find object: " ++ a_text n) [TE KId (a_loc n)])), s).
 Proof.
-  intros Hk Hl Hg Hf Hb. cbn [eval]. unfold node_prog. rewrite with_trace_spec. rewrite Hk.
+  intros Hk Hl Hg Hf Hb Hu. cbn [eval]. unfold node_prog. rewrite with_trace_spec. rewrite Hk.
   unfold lookup_id. cbn [use_hints]. unfold lookup_by_name. cbn [use_hints].
   repeat (rewrite run_bind; cbn [run]).
   rewrite Hl. repeat (rewrite run_bind; cbn [run]).
   unfold lookup_nonlocal. repeat (rewrite run_bind; cbn [run run_prim]). rewrite Hg.
-  repeat (rewrite run_bind; cbn [run run_prim]). rewrite Hf. rewrite Hb.
+  repeat (rewrite run_bind; cbn [run run_prim]). rewrite Hf. rewrite Hb. rewrite Hu.
   unfold eval_error, throw, entry. cbn [run]. rewrite Hk. reflexivity.
 Qed.
